@@ -1711,6 +1711,10 @@ class SSHServerChannel(SSHChannel, Generic[AnyStr]):
                        subsystem: Optional[str] = None) -> bool:
         """Tell the session what type of channel is being requested"""
 
+        if self._started:
+            # Only one shell, exec or subsystem request can succeed
+            return False
+
         forced_command = \
             cast(str, self._conn.get_certificate_option('force-command'))
 
@@ -1731,6 +1735,7 @@ class SSHServerChannel(SSHChannel, Generic[AnyStr]):
         else:
             result = self._session.shell_requested()
 
+        self._started = bool(result)
         return result
 
     def _process_shell_request(self, packet: SSHPacket) -> bool:
